@@ -52,6 +52,6 @@ BNext == /\ k < NS
 BSpec == BInit /\ [][BNext]_bvars
 
 Report == IF k = NS THEN PrintT(<<"ACC", pid>>)
-          ELSE IF StepWhy(B, St) # "" THEN PrintT(<<"AT", pid, k + 1, St.op, StepWhy(B, St)>>)
+          ELSE IF StepWhy(B, St) # "" THEN PrintT("AT|" \o ToString(pid) \o "|" \o ToString(k + 1) \o "|" \o St.op \o "|" \o StepWhy(B, St))
           ELSE TRUE
 =============================================================================
